@@ -405,6 +405,9 @@ def run_impl(case):
     engine = fl.Engine("e", input_variables=ivs, output_variables=ovs)
     for v in ivs + ovs:
         v.value = dec(case["evars"][v.name])
+        if v.name in case.get("disabled", ()):
+            # a variable that is switched off still HAS its value: a formula that mentions it reads that value
+            v.enabled = False
     try:
         f = fl.Function.create("f", case["text"], engine)
     except Exception as ex:  # noqa: BLE001
@@ -1079,6 +1082,23 @@ def correspond(ctx):
         n_or += 1
         if len(mism) > 25:
             break
+    # the same well-formed formulas over engines whose variables are switched off (`enabled = False`): the value of a formula is
+    # a function of the values of its variables, whatever else is configured on them (no new random draw)
+    k = 0
+    for case in cs:
+        if case["kind"] != "wf" or not case["evars"] or case.get("route") == "evaluate" or len(mism) > 25:
+            continue
+        k += 1
+        if k % 5:
+            continue
+        names = sorted(case["evars"])
+        c2 = dict(case, disabled=names if (k // 5) % 2 else names[:1])
+        ok0, _ = oracle(case)
+        ok, detail = oracle(c2)
+        st.count("disabled-variables")
+        if ok0 and not ok:
+            mism.append({"case": c2, "violation": True, "detail": detail + f" (engine variables {c2['disabled']} are disabled)",
+                         "what": detail})
     return mism
 
 
